@@ -53,7 +53,7 @@ var (
 		{Name: "comment", Pattern: `#[^\n]+`},
 		{Name: "whitespace", Pattern: `\s+`},
 	})
-	tomlParser = participle.MustBuild[tomlTOML](
+	tomlParser = mustBuild[tomlTOML](
 		participle.Lexer(tomlLexer),
 		participle.Unquote("String"),
 	)
